@@ -42,8 +42,11 @@ GRIDS = {
 BPMS = [60.0, 100.0, 120.0, 177.5, 240.0]
 BPMS_FAR = [7.5, 1920.0]                                                   # more than 10x away from the others
 MULTS = [0.5, 0.75, 1.0, 1.25, 2.0]
+MULTS_WIDE = [0.0, -1.0, 10.0, 0.015625, 1000.0]                           # the whole range of a float multiplier: zero, negative, tiny, huge
 OVERRIDES = [None, 100, 177.5]
 OVERRIDES_MORE = [1, 0.75, 60.0, 1000]
+OVERRIDES_WIDE = [0.0009765625, 1048576.0]                                 # any override > 0: 2**-10, 2**20
+EDITS = ["scale_bpm", "stack_shift", "shift_each", "rate2", "rate_half", "append_bpm", "append_bpm_sorted", "append_note", "append_sv", "set_sv_mults", "new_bpm_list"]
 HOLD_LENGTHS = [50.0, 2000.0]
 SV_GAMES = ["osu", "qua"]
 OTHER_GAMES = ["sm", "bms", "o2j", "base"]
@@ -396,7 +399,8 @@ def _random_case(rng, game, plain=False):
             holds.append([t, rng.randrange(4), rng.choice(lengths)])      # long tails reach past everything else
     hits.sort()
     holds.sort()
-    overrides = OVERRIDES if plain or rng.random() < 0.6 else OVERRIDES_MORE
+    overrides = OVERRIDES if plain or rng.random() < 0.6 else OVERRIDES_MORE + (OVERRIDES_WIDE if rng.random() < 0.4 else [])
+    mults = MULTS if plain or rng.random() < 0.85 else MULTS + MULTS_WIDE
     case = dict(game=game, bpms=bpms, hits=hits, holds=holds, override=rng.choice(overrides))
     if game in SV_GAMES:
         svs = []
@@ -410,7 +414,7 @@ def _random_case(rng, game, plain=False):
                 t = rng.choice([x for x in grid if x < t1])             # before the first tempo point
             else:
                 t = rng.choice(grid)
-            svs.append([t, rng.choice(MULTS)])
+            svs.append([t, rng.choice(mults)])
         svs.sort(key=lambda e: e[0])                                    # stable: ties keep their drawn order
         case["svs"] = svs
     else:
@@ -504,6 +508,10 @@ def _features(case):
         f.add("calls_reordered" if len(case["order"]) == 3 else "a_call_repeated")
     if case["override"] in OVERRIDES_MORE:
         f.add("override_far")
+    if case["override"] in OVERRIDES_WIDE:
+        f.add("override_extreme")
+    if any(x in MULTS_WIDE for _, x in case["svs"]):
+        f.add("sv_multiplier_zero_negative_or_extreme")
     return f
 
 
@@ -513,7 +521,7 @@ def tempo_analysis_vs_definitions(rep):
     N = rep.n(1000, 30000)
     rep.bound = (f"up to {N} seeded charts: 1..4 tempo points at distinct times of the first 6 grid times with bpm values drawn from 1..3 of {BPMS} (repeats, ties; 12%: also {BPMS_FAR}), "
                  f"1..3 notes (hits and holds, lengths {HOLD_LENGTHS + [0.0]}) at or after the first tempo point, override in {OVERRIDES} (60%) or {OVERRIDES_MORE}, 20% as numpy scalar, passed positionally / by keyword / omitted; "
-                 f"osu and quaver (2/3 of the cases): 0..4 SVs with multipliers {MULTS}, 30% on a tempo point, 15% on another SV, 10% before the first tempo point; "
+                 f"osu and quaver (2/3 of the cases): 0..4 SVs with multipliers {MULTS} (15% of the wider cases also {MULTS_WIDE}; 16% of the overrides of the wider cases from {OVERRIDES_WIDE}), 30% on a tempo point, 15% on another SV, 10% before the first tempo point; "
                  "sm (30% with a stop), bms, o2j, base Map: dominant_bpm and scroll_speed without SVs. "
                  f"One case in 4 keeps the original scope (time-ordered lists, default labels, floats, grid {TIME_GRID}); in the others: time grid base / negative (-450..550) / large (+1 h) / "
                  "fraction (x.5, x.999, 1/16 ms) / tight (0.25 ms steps), 20% of the integral grids int-typed (python ints, all-int bpm column), 10% numpy scalars; EACH of the four lists (tempo, SV, hits, holds) "
@@ -545,6 +553,46 @@ def _replay(case, what):
 
 
 # ---------------------------------------------------------------------------------------------- histories
+def _edit_chart(m, game, kind):
+    """A legitimate change of the chart object through public operations (the statement's preconditions are kept: the first
+    tempo point stays at or before the first object, tempo points keep distinct times); -> the chart to go on with."""
+    M, kw = _game(game)
+    H, B = type(m.hits)._item_class(), type(m.bpms)._item_class()
+    ends = [x for lst in m.objs.values() for x in lst.offset.tolist()]
+    t_end = max(float(x) for x in ends)
+    if kind == "scale_bpm":                     # in place, through the documented list property
+        m.bpms.bpm *= 2
+    elif kind == "stack_shift":                 # every list of the chart in place, through the stack
+        st = m.stack()
+        st.offset += 128.0
+    elif kind == "shift_each":
+        for lst in m.objs.values():
+            lst.offset += -64.0
+    elif kind == "rate2":
+        return m.rate(2.0)
+    elif kind == "rate_half":
+        return m.rate(0.5)
+    elif kind == "append_bpm":                  # a new list assigned; the new tempo point becomes the last object
+        m.bpms = m.bpms.append(B(offset=t_end + 64.0, bpm=90.0))
+    elif kind == "append_bpm_sorted":
+        m.bpms = m.bpms.append(type(m.bpms)([B(offset=t_end + 32.0, bpm=480.0)]), sort=True)
+    elif kind == "append_note":                 # a later last object: other active totals
+        m.hits = m.hits.append(H(offset=t_end + 4096.0, column=1, **kw))
+    elif kind == "append_sv":
+        if game in SV_GAMES:
+            S = type(m.svs)._item_class()
+            m.svs = m.svs.append(S(offset=min(float(x) for x in m.bpms.offset.tolist()) + 16.0, multiplier=4.0))
+    elif kind == "set_sv_mults":
+        if game in SV_GAMES and len(m.svs.df):
+            m.svs.multiplier = [[0.25, 1.5, 3.0][i % 3] for i in range(len(m.svs.df))]
+    elif kind == "new_bpm_list":                # a freshly built list with the same first time
+        t1 = min(float(x) for x in m.bpms.offset.tolist())
+        m.bpms = type(m.bpms)([B(offset=t1 + 48.0, bpm=200.0), B(offset=t1, bpm=50.0)])
+    else:
+        raise ValueError(kind)
+    return m
+
+
 def _run_history(case, observe=None):
     """Two charts alive at once; each step judges one of them (possibly with another override, after re-sorting one of
     its lists, after appending the normalising SVs to it) against the statement for the chart AS IT IS THEN."""
@@ -567,6 +615,11 @@ def _run_history(case, observe=None):
             kind, rev = st["resort"]
             if kind != "svs" or c["game"] in SV_GAMES:
                 setattr(m, kind, getattr(m, kind).sorted(reverse=rev))
+        if st.get("edit"):                                            # the SAME chart object changed through public operations since it was last judged
+            try:
+                m = maps[on] = _edit_chart(m, c["game"], st["edit"])
+            except Exception:  # noqa  (an edit that reamber refuses is not this property's business)
+                continue
         if st.get("append_norm") and c["game"] in SV_GAMES:           # the documented use: svs = svs.append(sv_normalize(m))
             try:
                 m.svs = m.svs.append(_call(sv_normalize, m, c), sort=bool(st.get("sort")))
@@ -604,6 +657,8 @@ def _random_history(rng):
             st["resort"] = [rng.choice(KINDS), rng.random() < 0.5]
         else:
             st["order"] = "".join(rng.sample("dsn", 3))
+        if rng.random() < 0.45:
+            st = dict(on=st["on"], edit=rng.choice(EDITS))             # judge - change the same object - judge again
         steps.append(st)
     return dict(a=a, b=b, steps=steps)
 
@@ -614,7 +669,9 @@ def tempo_analysis_histories(rep):
     N = rep.n(220, 6000)
     rep.bound = (f"up to {N} seeded histories over two charts drawn as in tempo_analysis_vs_definitions (chart a osu / quaver, chart b any game): both built first, then 4..6 steps; "
                  "a step judges chart a or b as it is, or first changes the override (any of " + f"{OVERRIDES + OVERRIDES_MORE}" + ", any call form), re-sorts one of its lists (either direction), "
-                 "permutes the call order, or appends sv_normalize(chart) to the chart's SVs (sorted or not)")
+                 "permutes the call order, or appends sv_normalize(chart) to the chart's SVs (sorted or not); 45% of the steps instead CHANGE the same chart object through public operations "
+                 f"since it was last judged ({', '.join(EDITS)}: bpm column *= 2, every list shifted through the stack / one by one, rate(2) / rate(0.5), a tempo point / note / SV appended, "
+                 "SV multipliers set in place, a new tempo list assigned) and judge it as it is then")
     rep.rule = "a case is one (chart a, chart b, steps); all have two charts and >= 4 judged steps; non-trivial when a step changes a chart or its override"
     obs = Counter()
     kinds = Counter()
@@ -625,7 +682,9 @@ def tempo_analysis_histories(rep):
         rep.case(case, nontrivial=any(len(s) > 1 for s in case["steps"]))
         for s in case["steps"]:
             kinds["judged_steps"] += 1
-            for k in ("override", "append_norm", "resort", "order"):
+            if "edit" in s:
+                kinds["edit_" + s["edit"]] += 1
+            for k in ("override", "append_norm", "resort", "order", "edit"):
                 if k in s:
                     kinds["steps_with_" + k] += 1
         for what, d in _run_history(case, obs):
